@@ -52,7 +52,11 @@ class Bundle(CborArray):
                 blk_data = blk.getfieldval('btsd')
                 if (blk.type_code == Bundle.BLOCK_TYPE_PAYLOAD
                         and blk_data is not None):
-                    pay = AdminRecord(blk_data)
+                    try:
+                        pay = AdminRecord(blk_data)
+                    except Exception:
+                        # a fragment or an encrypted record, keep the data as-is
+                        continue
                     blk.remove_payload()
                     blk.add_payload(pay)
 
